@@ -242,7 +242,8 @@ def contexts():
     from qcelemental.physical_constants import PhysicalConstantsContext
     return {"CODATA2014": (2014, PhysicalConstantsContext("CODATA2014")),
             "CODATA2018": (2018, PhysicalConstantsContext("CODATA2018")),
-            "default": (2014, qcelemental.constants)}
+            "default": (2014, qcelemental.constants),
+            "noarg": (2014, PhysicalConstantsContext())}       # the documented default of the constructor argument
 
 
 def impl_call(cobj, route, name):
@@ -404,7 +405,7 @@ def gen_requests(ctx, data, ctxs):
                 names.setdefault(k, q.label if isinstance(q.label, str) and q.label.lower() == k else k)
         except Exception:
             pass
-        light = (cname == "default") and not ctx.thorough
+        light = (cname in ("default", "noarg")) and not ctx.thorough
         for low, label in names.items():
             if not label.isascii():
                 continue
@@ -446,8 +447,8 @@ def correspond(ctx):
     corr = Corr()
     corr.rule = ("every name the property speaks about (all NIST rows of the context's year, the 2014 names in the 2018 set, calorie-joule, "
                  "the 27 aliases, the 3 derived 2018 constants) plus every other key the implementation holds, x {published spelling, "
-                 "lower, upper, random case} x {get, get(return_tuple), pc[...], attribute}, in CODATA2014, CODATA2018 and the default "
-                 "singleton; plus non-names. A case is non-trivial if the implementation returned a value (not an error); distinct = "
+                 "lower, upper, random case} x {get, get(return_tuple), pc[...], attribute}, in CODATA2014, CODATA2018, the default "
+                 "singleton and a context constructed without argument; plus non-names. A case is non-trivial if the implementation returned a value (not an error); distinct = "
                  "distinct (context, route, spelling). Decimal values compared as (coefficient, exponent) i.e. str(Decimal) exactly; "
                  "floats via the exact (mantissa, exponent) against the nearest-binary64 specification.")
     data = _data(ctx)
@@ -591,8 +592,17 @@ LEVEL_TEXT = (
     "against the model's nearest64 bit for bit. Wave 2: C02_decimal_fix_is_correct_rounding, C02_decimal_ndigits, "
     "C02_decimal_mul_rounds_exact_product, C02_decimal_div_is_correct_rounding (the Decimal model is a correct 28-digit half-even rounding of the "
     "exact rational result, for ALL operands), C02_nearest64_ok_meaning (for all inputs: no number with a 53-bit mantissa is closer; ties to even) "
-    "and C02_float_is_nearest (every table value's float form is that nearest double).")
+    "and C02_float_is_nearest (every table value's float form is that nearest double). Wave 3: C02_routes_agree (pc[lower name], get(return_tuple), "
+    "get and the attribute deliver the same Datum / the float of the same Decimal); a context constructed without argument is a fourth "
+    "object of the correspondence.")
 LEVEL_NOTE = (
+    "Clause map (full version at the top of coq/Props/C02.v): retrievable by NIST name in any case -> C02_table_is_nist, C02_get_case_insensitive, "
+    "C02_get_upper_lower, C02_no_undocumented_keys; as attribute -> C02_table_is_nist, C02_mangle_is_documented, C02_attr_is_mangled_label; value/unit/"
+    "label/uncertainty = NIST -> C02_table_is_nist, C02_table_is_srd121_json; float = nearest double -> C02_float_is_nearest, C02_nearest64_ok_meaning "
+    "(CPython's float(Decimal) itself: correspondence, bit for bit); aliases = documented definitions -> C02_alias_definitions, "
+    "C02_alias_power_of_ten_sanity, C02_alias_documented_magnitudes, C02_calorie_joule, C02_derived_2018_definitions, C02_decimal_*; 2018 keeps 2014 "
+    "names -> C02_renames_2018, C02_legacy_names_retrievable, C02_legacy_spelling; four access routes -> C02_routes_agree; default singleton / default "
+    "constructor argument = CODATA2014 -> translator (verbatim, fail-closed) + correspondence only. "
     "Trusted: Coq kernel + vm_compute; translators harness/translate/codata.py; the hand-written models of Decimal (Common/DecC02.v) and of "
     "__init__/get (Model/Constants.v), tied by correspondence only; CPython decimal/str/OrderedDict/float(Decimal) and pydantic Datum are modelled, "
     "not verified (but the Decimal model itself is now PROVED to be a correct rounding, and 'float is the nearest double' is a theorem about "
